@@ -414,6 +414,22 @@ def run_check(prop, tier, seed, repo, nlanes, runs_override=None, verbose=True):
       write_evidence(prop, tier, seed, results, jobs, time.time() - t0, pool, info, selftest, [], [], note='determinism self-test failed')
       return 2
 
+    # ---- bounded liveness (C10 "every request returns") -----------------------------------
+    # a run that hit the step cap is re-run once under the serial strategy (a
+    # trivially fair schedule, no faults stop flowing later than the plan says):
+    # if it still does not finish, some request never returns.
+    if prop == 'C10':
+      capped = [i for i, r in enumerate(results)
+                if r.get('status') == 'inconclusive' and (r.get('detail') or {}).get('status') == 'step-cap'][:8]
+      if capped:
+        sj = []
+        for i in capped:
+          p2 = copy.deepcopy(results[i]['plan'])
+          p2['strategy'] = {'name': 'serial'}
+          sj.append({'prop': prop, 'mode': 'explicit', 'plan': p2, 'schedule': None})
+        for i, r2 in zip(capped, pool.map(sj, timeout)):
+          if r2.get('status') == 'violation':      # the child labels a capped serial run R6/no-progress
+            results[i] = r2
     # ---- classify ------------------------------------------------------------------
     herr = [(j, r) for j, r in zip(jobs, results) if r.get('status') == 'harness_error']
     known = load_known(prop)
